@@ -7,6 +7,8 @@ INVARIANT NeverForOther
 INVARIANT HonestAccepted
 INVARIANT RsaNotDeviceBound
 INVARIANT HistoryBound
+INVARIANT AnnounceBound
+INVARIANT FormFollowsCredential
 INVARIANT Layout
 INVARIANT SlotEntries
 INVARIANT ListNotSet
